@@ -60,7 +60,7 @@ impl ThriftBackend {
             ty::I64 => format!("__protocol.write_i64(*{ident})?;").into(),
             ty::F64 => format!("__protocol.write_double(*{ident})?;").into(),
             ty::OrderedF64 => format!("__protocol.write_double({ident}.0)?;").into(),
-            ty::Uuid => format!("__protocol.write_uuid({ident})?;").into(),
+            ty::Uuid => format!("__protocol.write_uuid(*{ident})?;").into(),
             ty::Vec(ty) => {
                 let el_ttype = self.ttype(ty);
                 let write_el = self.codegen_encode_ty(ty, "val".into());
